@@ -36,7 +36,7 @@ def codesT : Codes where
   maxHandshake := Facts.tlcp.maxHandshake
   curvesMode := Facts.tlcp.codecCurvesMakeMode
   sigAlgsMode := Facts.tlcp.codecSigAlgsMakeMode
-  complete := []
+  complete := Facts.tlcp.codecCompleteChecked
 
 def codesD : Codes where
   tClientHello := Facts.dtlcp.typeClientHello
